@@ -2,19 +2,43 @@
 import json
 
 import common
-from common import cstr
+from common import cstr, cnode
 import impl
 from impl import Document, FormatOptions, esc_text, no_gc
 
 REQ = ("From Coq Require Import List NArith ZArith.\nFrom Delb.Base Require Import PyStr.\n"
        "From Delb.Gen Require Import GenWrap.\n"
+       "From Delb.Tree Require Import ATree Encode.\nFrom Delb.Ws Require Import Wrap.\n"
        "Definition enc_lines (o : option (list str)) : list N :=\n"
        "  match o with None => [999999%N] | Some ls => N.of_nat (length ls) :: flat_map (fun l => N.of_nat (length l) :: l) ls end.\n")
 
-WORD_CHARS = "abcxyz&<é中"
+WORD_CHARS = "abcxyz&<>é中"
+
+
+def gen_near_fit(rng):
+    """the one-line form <p>text</p> (7 + escaped length) lands within a few characters of the width; escapable
+    characters make the raw text shorter than what is written"""
+    w = rng.choice([8, 9, 10, 12, 14, 16, 20, 24, 28, 33, 40])
+    target = w - 7 + rng.choice([-3, -2, -1, 0, 0, 1, 2, 3, 4, 6])
+    chars = rng.choice([WORD_CHARS, "ab&<", "abc", "&<>", "a>b&"])
+    words, total = [], 0
+    while total < target:
+        n = rng.randint(1, max(1, min(6, target - total)))
+        wd = "".join(rng.choice(chars) for _ in range(n))
+        words.append(wd)
+        total = len(esc_text(" ".join(words)))
+    case = {"words": words or ["a"], "width": w, "indentation": rng.choice(["", " ", "  ", "\t"]),
+            "depth": rng.choice([0, 1, 1, 2, 3])}
+    if rng.random() < 0.15:
+        case["lead"] = rng.choice([" ", "\n"])
+    if rng.random() < 0.15:
+        case["trail"] = rng.choice([" ", "\n"])
+    return case
 
 
 def gen_case(rng, quick):
+    if rng.random() < 0.25:
+        return gen_near_fit(rng)
     w = rng.choice([1, 2, 3, 4, 5, 6, 7, 8, 9, 10, 11, 12] + ([] if quick else [15, 20, 33, 40]))
     ind = rng.choice(["", " ", "  ", "\t", "   "])
     depth = rng.choice([0, 1, 1, 2, 3])
@@ -76,6 +100,7 @@ def run_impl(case):
             p.append_children(*case["pieces"])
         out = doc.root.serialize(format_options=FormatOptions(width=case["width"], indentation=case["indentation"],
                                                               align_attributes=False))
+        case["_tree"] = impl.extract(doc.root)
     return out, escaped
 
 
@@ -103,6 +128,15 @@ def first_word(s):
 def classify(finding, case):
     if finding["cls"] == "text-length-equals-width":
         return len(esc_text(" ".join(case["words"]))) == case["width"] and case["indentation"] != ""
+    if finding["cls"] == "oneline-boundary-whitespace":
+        # the one-line form keeps a blank at the start/end of an un-reduced text that the fitting test did not count:
+        # the line is longer than the width by at most those blanks
+        l = case.get("line")
+        if l is None:
+            return False
+        content = l.lstrip(" \t")
+        extra = content.count("<p> ") + content.count(" </p>")
+        return extra > 0 and len(content) - extra <= case["width"]
     return False
 
 
@@ -116,13 +150,25 @@ def check_cases(ctx, cases):
             impl_out.append(None)
     terms = ["enc_lines (wrap_text %s (%d)%%Z)" % (cstr(r[1]), c["width"]) for c, r in zip(cases, impl_out) if r]
     vals = ctx.coq_eval("c19", REQ, terms, chunk=300)
+    # the whole output against the model of the wrapping serializer (Ws/Wrap.v, the one C03's theorems are about)
+    trees = [c.pop("_tree", None) for c in cases]
+    fterms = ["enc_str (wrap_str %s false (%d)%%Z %s [])" % (cstr(c["indentation"]), c["width"], cnode(t))
+              for c, r, t in zip(cases, impl_out, trees) if r]
+    fvals = ctx.coq_eval("c19f", REQ, fterms, chunk=100)
     i = 0
     for c, r in zip(cases, impl_out):
         if r is None:
             continue
-        model = vals[i]
+        model, full = vals[i], fvals[i]
         i += 1
         out, escaped = r
+        if full is None:
+            ctx.mismatch("wrap_str evaluation", "coqc failed on the case file")
+        elif c.get("pieces"):
+            pass        # Ws/Wrap.v is about coalesced trees (what a parser yields); a run of adjacent text nodes is C04's
+        elif "".join(chr(x) for x in full[1:]) != out:
+            ctx.mismatch("serialize(FormatOptions(width, indentation)) vs wrap_str (Ws/Wrap.v)",
+                         {"case": c, "impl": out, "model": "".join(chr(x) for x in full[1:])})
         kind, raw = text_lines(out, c, escaped)
         ctx.count(1, kind)
         ctx.sample({"case": c, "output": out})
@@ -142,6 +188,14 @@ def check_cases(ctx, cases):
             mlines.append("".join(chr(x) for x in model[pos + 1:pos + 1 + ln]))
             pos += 1 + ln
         if kind == "oneline":
+            # the element was judged to fit: the line that holds it is then not longer than the width (unless the text
+            # is one unbreakable word - never so on the code as it is, the model says what it does there)
+            for l in out.split("\n"):
+                if "<p>" in l and "</p>" in l:
+                    content = l.lstrip(" \t")
+                    if len(content) > c["width"] and " " in escaped:
+                        ctx.fail("the one-line form of a text-only element is longer than the width although its text can be "
+                                 "broken", dict(c, line=l, output=out), classify)
             continue
         if len(raw) > 1:
             ctx.nontrivial_case((tuple(c["words"]), c["width"], c["indentation"], c["depth"]))
@@ -167,8 +221,11 @@ def check_cases(ctx, cases):
 
 
 def replay_open(f):
-    c = f["witness"]
+    c = dict(f["witness"])
     out, escaped = run_impl(c)
+    if f.get("cls") == "oneline-boundary-whitespace":
+        return any("<p>" in l and "</p>" in l and " " in l.strip() and len(l.lstrip(" \t")) > c["width"]
+                   for l in out.split("\n"))
     kind, raw = text_lines(out, c, escaped)
     prefix = c["indentation"] * (c["depth"] + 1)
     return kind == "lines" and any(not l.startswith(prefix) for l in raw)
